@@ -122,22 +122,22 @@ Section Lz4.
 
   Theorem lz4_roundtrip (prepend : bool) (buf : Z) v :
     N.of_nat (length v) < 4294967296 ->
+    (0 <= buf < 2 ^ 32)%Z ->
     (prepend = true -> N.of_nat (length v) <> magic_len) ->
-    (prepend = false -> (0 <= buf < 2 ^ 32 /\ Z.of_nat (length v) <= buf)%Z) ->
+    (prepend = false -> (Z.of_nat (length v) <= buf)%Z) ->
     exists e, encode_lz4 compress prepend v = ROk e /\ decode_lz4 decompress frame_dec buf prepend e = ROk v.
   Proof.
-    intros Hlen Hmagic Hbuf. unfold encode_lz4. eexists. split; [reflexivity|].
+    intros Hlen [Hb0 Hb1] Hmagic Hbuf. unfold encode_lz4. eexists. split; [reflexivity|].
+    assert (Ebv : buf_valid buf = true).
+    { unfold buf_valid. rewrite (proj2 (Z.leb_le _ _) Hb0), (proj2 (Z.ltb_lt _ _) Hb1). reflexivity. }
     destruct prepend.
-    - unfold decode_lz4. rewrite (size_le_not_magic _ (compress v) Hlen (Hmagic eq_refl)).
+    - unfold decode_lz4. rewrite Ebv. cbn [negb].
+      rewrite (size_le_not_magic _ (compress v) Hlen (Hmagic eq_refl)).
       assert (P := size_prefix _ Hlen). unfold size_le in *. cbn [app].
       rewrite P. rewrite lib_inverse by lia. reflexivity.
-    - destruct (Hbuf eq_refl) as [[Hb0 Hb1] Hb2].
-      unfold decode_lz4. rewrite block_not_frame.
-      assert (Ebs : buffer_size buf = buf).
-      { unfold buffer_size. rewrite (proj2 (Z.leb_le _ _) Hb0), (proj2 (Z.ltb_lt _ _) Hb1). reflexivity. }
-      rewrite Ebs.
-      assert (Ei : (isize_max <? buf)%Z = false) by (apply Z.ltb_ge; unfold isize_max; lia).
-      rewrite Ei. rewrite lib_inverse by lia. reflexivity.
+    - assert (Hb2 := Hbuf eq_refl).
+      unfold decode_lz4. rewrite Ebv. cbn [negb]. rewrite block_not_frame.
+      rewrite lib_inverse by lia. reflexivity.
   Qed.
 
   (* with both functions' defaults (prepend_size: true, prepended_size: false) the decoder hands the
@@ -150,22 +150,20 @@ Section Lz4.
   Proof.
     intros Hlen Hm. eexists. split; [reflexivity|].
     unfold decode_lz4, default_prepended_size, default_prepend_size.
-    rewrite (size_le_not_magic _ (compress v) Hlen Hm). reflexivity.
+    cbn [buf_valid default_buf_size negb]. rewrite (size_le_not_magic _ (compress v) Hlen Hm). reflexivity.
   Qed.
 End Lz4.
 
-(* buf_size outside 0..2^32-1 is not rejected: it becomes usize::MAX and the allocation panics *)
-Theorem lz4_bufsize_panics decompress frame_dec (buf : Z) v :
-  (buf < 0 \/ 2 ^ 32 <= buf)%Z ->
-  (starts_with lz4_magic v = false -> decode_lz4 decompress frame_dec buf false v = RPanic) /\
-  (starts_with lz4_magic v = true -> forall p, decode_lz4 decompress frame_dec buf p v = RPanic).
+(* buf_size outside 0..2^32-1 is rejected with an error, whatever the data and the other option *)
+Theorem lz4_bufsize_rejected decompress frame_dec (buf : Z) (prepended : bool) v :
+  (buf < 0 \/ 2 ^ 32 <= buf)%Z -> decode_lz4 decompress frame_dec buf prepended v = RErr.
 Proof.
   intros Hb.
-  assert (E : buffer_size buf = usize_max).
-  { unfold buffer_size. destruct Hb as [H|H].
+  assert (E : buf_valid buf = false).
+  { unfold buf_valid. destruct Hb as [H|H].
     - rewrite (proj2 (Z.leb_gt _ _) H). reflexivity.
-    - rewrite (proj2 (Z.ltb_ge _ _) H). rewrite andb_false_r. reflexivity. }
-  split; intros Hs; [|intros p]; unfold decode_lz4; rewrite Hs, E; reflexivity.
+    - rewrite (proj2 (Z.ltb_ge _ _) H). apply andb_false_r. }
+  unfold decode_lz4. rewrite E. reflexivity.
 Qed.
 
 (* ---------- charset ---------- *)
@@ -183,20 +181,21 @@ Section Charset.
               /\ decode_charset for_label cs_decode label b = ROk t.
   Proof.
     intros Hl Hv Hr. exists (cs_encode e t). unfold encode_charset, decode_charset.
-    rewrite Hv, Hl. rewrite (lib_inverse e t Hr). split; reflexivity.
+    rewrite Hl, (lossy_valid t Hv). rewrite (lib_inverse e t Hr). split; reflexivity.
   Qed.
 
   Theorem charset_unknown_label label t :
-    for_label label = None -> valid_utf8 t = true ->
+    for_label label = None ->
     encode_charset for_label cs_encode label t = RErr /\ decode_charset for_label cs_decode label t = RErr.
   Proof.
-    intros Hl Hv. unfold encode_charset, decode_charset. rewrite Hv, Hl. split; reflexivity.
+    intros Hl. unfold encode_charset, decode_charset. rewrite Hl. split; reflexivity.
   Qed.
 
-  (* outside the property (not text), recorded because it is a panic on event data *)
-  Theorem charset_invalid_utf8_panics label v :
-    valid_utf8 v = false -> encode_charset for_label cs_encode label v = RPanic.
-  Proof. intros H. unfold encode_charset. rewrite H. reflexivity. Qed.
+  (* bytes that are not UTF-8 are converted lossily first: never a panic *)
+  Theorem charset_invalid_utf8_lossy label e v :
+    for_label label = Some e ->
+    encode_charset for_label cs_encode label v = ROk (cs_encode e (utf8_lossy v)).
+  Proof. intros Hl. unfold encode_charset. rewrite Hl. reflexivity. Qed.
 End Charset.
 
 (* ---------- punycode with validate: true ---------- *)
